@@ -261,18 +261,44 @@ flo%(u)s(n: SI): Integer == {
     return d, [], "flo%s(%d)" % (u, n)
 
 
+def b_tokens(u, rng, n):
+    """Lexical extremes: integer literals, string literals and identifiers of every
+    length in a seeded window (token-buffer boundaries of the scanner and of the
+    emitters lie somewhere in 1..300)."""
+    a = rng.range(20, 290)
+    w = rng.range(12, 28)
+    lines = []
+    tot = 0
+    for L in range(a, a + w):
+        lit = str(rng.range(1, 9)) + "".join(str(rng.below(10)) for _ in range(L - 1))
+        lines.append("\ts := s + %s;" % lit)
+    La = rng.range(20, 200)
+    ident = "v" + "".join(rng.choice("abcdefghij") for _ in range(La))
+    strlit = "".join(rng.choice("abcdefgh ") for _ in range(rng.range(40, 300)))
+    d = '''
+tok%(u)s(n: SI): Integer == {
+	s: Integer := 0;
+%(lines)s
+	%(ident)s: String := "%(strlit)s";
+	(s + (#%(ident)s)::Integer) rem 1000000007
+}
+''' % dict(u=u, lines="\n".join(lines), ident=ident, strlit=strlit)
+    return d, [], "tok%s(%d)" % (u, 1)
+
+
 BLOCKS = [("list", b_list, 4), ("record", b_record, 4), ("node", b_node, 2), ("closure", b_closure, 2),
           ("generator", b_generator, 2), ("bigint", b_bigint, 3), ("string", b_string, 2), ("table", b_table, 2),
           ("array", b_array, 3), ("domain", b_domain, 1),
-          ("exn", b_exn, 2), ("union", b_union, 2), ("float", b_float, 1)]
+          ("exn", b_exn, 2), ("union", b_union, 2), ("float", b_float, 1), ("tokens", b_tokens, 1)]
 
 
-def gen_blocks(rng, size="small"):
+def gen_blocks(rng, size="small", force=()):
     """Returns list of (kind, decl, call)."""
     nb = rng.range(3, 8) if size != "tiny" else rng.range(1, 3)
     out = []
-    for i in range(nb):
-        kind, fn, _ = rng.weighted([(b, b[2]) for b in BLOCKS])
+    forced = [b for b in BLOCKS if b[0] in force]
+    for i in range(nb + len(forced)):
+        kind, fn, _ = forced[i - nb] if i >= nb else rng.weighted([(b, b[2]) for b in BLOCKS])
         if size == "small":
             n = rng.loguniform(5, 120)
         elif size == "tiny":
@@ -299,5 +325,5 @@ def render(blocks):
     return s
 
 
-def gen_program(rng, size="small"):
-    return render(gen_blocks(rng, size))
+def gen_program(rng, size="small", force=()):
+    return render(gen_blocks(rng, size, force))
